@@ -164,7 +164,7 @@ func checkC11(c *Check) {
 	c.activeEntryGuard("C11.4 who-may-dial")
 	// an inbound FSM that goes down is disabled (never becomes a dialler) and
 	// the outbound FSM is re-enabled
-	if fn := p.Fn("peer.handleStateTransition"); fn != nil && len(fn.Params) == 3 {
+	if fn := p.Fn("peer.handleStateTransition"); fn != nil && c.sig("C11.4 inbound-never-dials", fn, 3) {
 		h := c.peerHooks(fn)
 		in, out := p.MustConst("in"), p.MustConst("out")
 		for _, tr := range [][2]string{{"openSentState", "activeState"}, {"openSentState", "idleState"}, {"openConfirmState", "idleState"}, {"establishedState", "idleState"}, {"activeState", "idleState"}} {
